@@ -429,4 +429,58 @@ Proof.
   change (vlist o ++ mlist b) with (tr12 o b) in Himg.
   unfold mk_v in HLoc. rewrite Himg, (motion_of_reals_tr12 o b p Hb) in HLoc. exact HLoc.
 Qed.
+
+(* by TR number: the card's twelve numbers, no normalisation involved *)
+Theorem precedence_located_linked_number :
+  forall table mat rho geom imp u star univ trid n card trcl (cl : cell motion)
+         (s : x_state) du key p c r (o : R3) (b : M3 R),
+  (forall k cd, dget k table = Some cd -> cd <> nil) ->
+  cell_of_keywords motion mk_v norm table mat rho geom imp u (Some (star, univ, trid, cons n nil)) trcl
+    = Ok cl ->
+  dget trid table = Some card -> map val card = tr12 o b -> rows_orthonormal b ->
+  dget key (s_cells s) = Some cl ->
+  LocW motion wfentry R3 m_empty m_inv m_sense s du key p (key :: c :: r) true ->
+  LocW motion wfentry R3 m_empty m_inv m_sense s du c (to_aux o b p) (c :: r) true.
+Proof.
+  intros table mat rho geom imp u star univ trid n card trcl cl s du key p c r o b
+         Htab Hcl Hcard Hval Hb Hk HL.
+  destruct (precedence_located motion wfentry R3 m_empty m_inv m_sense mk_v norm
+              mk_v_tuple_law norm_nonempty table mat rho geom imp u star univ trid (cons n nil) trcl cl
+              s du key p c r Htab Hcl Hk HL) as [Hex _].
+  destruct (Hex ltac:(discriminate)) as (lf & Elf & _ & HLoc).
+  unfold kw_tuple, parse_tr_params in Elf. rewrite Hcard in Elf.
+  assert (Hlf : firstn 12 card = lf) by congruence. clear Elf.
+  assert (Hlen : List.length card = 12%nat).
+  { rewrite <- (map_length val), Hval. destruct o, b as [[? ? ?] [? ? ?] [? ? ?]]. reflexivity. }
+  assert (Hfirst : firstn 12 card = card) by (apply firstn_all2; rewrite Hlen; constructor).
+  rewrite <- Hlf, Hfirst in HLoc. unfold mk_v in HLoc.
+  rewrite Hval, (motion_of_reals_tr12 o b p Hb) in HLoc. exact HLoc.
+Qed.
+
+(* three numbers (also starred, also all zero): a translation *)
+Theorem precedence_located_linked_translation :
+  forall table mat rho geom imp u star univ trid a1 a2 a3 trcl (cl : cell motion)
+         (s : x_state) du key p c r,
+  val 0%Z = 0 -> val 1%Z = 1 ->
+  (forall k cd, dget k table = Some cd -> cd <> nil) ->
+  cell_of_keywords motion mk_v norm table mat rho geom imp u
+                   (Some (star, univ, trid, cons a1 (cons a2 (cons a3 nil)))) trcl = Ok cl ->
+  dget key (s_cells s) = Some cl ->
+  LocW motion wfentry R3 m_empty m_inv m_sense s du key p (key :: c :: r) true ->
+  LocW motion wfentry R3 m_empty m_inv m_sense s du c
+       (to_aux (mkV (val a1) (val a2) (val a3)) idm3 p) (c :: r) true.
+Proof.
+  intros table mat rho geom imp u star univ trid a1 a2 a3 trcl cl s du key p c r
+         V0 V1 Htab Hcl Hk HL.
+  destruct (precedence_located motion wfentry R3 m_empty m_inv m_sense mk_v norm
+              mk_v_tuple_law norm_nonempty table mat rho geom imp u star univ trid
+              (cons a1 (cons a2 (cons a3 nil))) trcl cl s du key p c r Htab Hcl Hk HL) as [Hex _].
+  destruct (Hex ltac:(discriminate)) as (lf & Elf & _ & HLoc).
+  unfold kw_tuple, parse_tr_params in Elf. inversion Elf; subst lf.
+  unfold mk_v in HLoc. cbn [map] in HLoc. rewrite V0, V1 in HLoc.
+  change (cons (val a1) (cons (val a2) (cons (val a3) (cons 1 (cons 0 (cons 0 (cons 0 (cons 1
+            (cons 0 (cons 0 (cons 0 (cons 1 nil))))))))))))
+    with (tr12 (mkV (val a1) (val a2) (val a3)) idm3) in HLoc.
+  rewrite (motion_of_reals_tr12 _ idm3 p idm3_orthonormal) in HLoc. exact HLoc.
+Qed.
 End PrecedenceLinked.
